@@ -48,6 +48,11 @@ SECOND = ["int", "None", "N2", "str"]
 ATOMS_RED = ["int", "bool", "None", "N1", "NI"]
 SECOND_RED = ["None", "N2"]
 _counter = itertools.count()
+_SW = [None]   # the other configuration switches in force (recorded in every case for replay)
+
+
+def _swc():
+    return {"other_switches": _SW[0]} if _SW[0] else {}
 
 
 def make_module():
@@ -105,7 +110,7 @@ def vrepr(v):
 
 def check_term(rec, mod, t, values, env):
     ann = RT.render(t, False)
-    case = {"annotation": ann, "term": t}
+    case = {"annotation": ann, "term": t, **_swc()}
     rec.count("states")
     rec.sample(case)
     try:
@@ -205,7 +210,7 @@ def check_multi(rec, mod, g):
         for (a, a_ok), (b, b_ok), (c, c_ok), (o, o_ok) in itertools.product(
                 [(1, True), (True, False)], [((n1,), True), ((1,), False)], [(None, True), (5, False)], [(NO_ORIGIN, True), ("x", False)]):
             exp = sorted(n for n, ok in (("a", a_ok), ("b", b_ok), ("c", c_ok), ("d", d_ok), ("origin", o_ok)) if not ok)
-            case = {"multi": True, "default_d": dflt, "a": repr(a), "b": "ok" if b_ok else "(1,)", "c": repr(c), "origin": "NO_ORIGIN" if o_ok else "'x'"}
+            case = {**_swc(), "multi": True, "default_d": dflt, "a": repr(a), "b": "ok" if b_ok else "(1,)", "c": repr(c), "origin": "NO_ORIGIN" if o_ok else "'x'"}
             rec.count("transitions")
             rec.count("traces")
             rec.count("evaluations")
@@ -259,7 +264,7 @@ def check_hierarchy(rec, mod, g):
             ]
             for cls, kw, exp in cases:
                 rec.count("transitions"); rec.count("traces"); rec.count("evaluations")
-                case = {"hierarchy": True, "first_constructed": first, "class": {B: "Base", D: "Derived", E: "Leaf"}[cls], "values": {k: vrepr(v) for k, v in kw.items()}}
+                case = {**_swc(), "hierarchy": True, "first_constructed": first, "class": {B: "Base", D: "Derived", E: "Leaf"}[cls], "values": {k: vrepr(v) for k, v in kw.items()}}
                 NODE_REGISTRY.clear()
                 try:
                     cls(**kw)
@@ -421,6 +426,31 @@ def check_switch_history(rec, mod, g, maxlen, k=0, of=1):
     rec.extra["switch_ops"] = names
 
 
+class other_switches:
+    """The configuration switches that have nothing to do with type checking, turned on for the duration of a block
+    (CODEGEN_DEBUG prints generated code: stdout is swallowed meanwhile)."""
+
+    COMBOS = [(False, False), (True, False), (False, True), (True, True)]
+
+    def __init__(self, trace, codegen):
+        self.trace, self.codegen = trace, codegen
+
+    def __enter__(self):
+        import contextlib
+        import io
+
+        self.saved = (config.TRACE_LOGGING, config.CODEGEN_DEBUG)
+        config.TRACE_LOGGING, config.CODEGEN_DEBUG = self.trace, self.codegen
+        self.redir = contextlib.redirect_stdout(io.StringIO())
+        self.redir.__enter__()
+        return self
+
+    def __exit__(self, *exc):
+        self.redir.__exit__(*exc)
+        config.TRACE_LOGGING, config.CODEGEN_DEBUG = self.saved
+        return False
+
+
 def plan(tier, seed):
     return [{"k": i, "of": NSHARDS, "tier": tier} for i in range(NSHARDS)]
 
@@ -431,16 +461,26 @@ def run_shard(cfg):
     g = mod.__dict__
     values = pool(g)
     env = {"N1": g["N1"], "N2": g["N2"], "E": g["E"]}
-    if cfg["k"] == 0:
-        check_multi(rec, mod, g)
-    if cfg["k"] == 1 % cfg["of"]:
-        check_hierarchy(rec, mod, g)
+    # multi-field and hierarchy families under every combination of the other two switches; every term under the default
+    # configuration and once more under one of the other three combinations (rotating with the term index)
+    for ci, (tr, cg) in enumerate(other_switches.COMBOS):
+        if cfg["k"] == ci % cfg["of"]:
+            with other_switches(tr, cg):
+                _SW[0] = {"TRACE_LOGGING": tr, "CODEGEN_DEBUG": cg}
+                check_multi(rec, mod, g)
+                check_hierarchy(rec, mod, g)
+                _SW[0] = None
     check_switch_history(rec, mod, g, 3 if cfg["tier"] == "thorough" else 2, cfg["k"], cfg["of"])
     for idx, t in enumerate(accepted_terms(cfg["tier"])):
         if idx % cfg["of"] != cfg["k"]:
             continue
         rec.rank = idx
         check_term(rec, mod, t, values, env)
+        tr, cg = other_switches.COMBOS[1 + idx % 3]
+        with other_switches(tr, cg):
+            _SW[0] = {"TRACE_LOGGING": tr, "CODEGEN_DEBUG": cg}
+            check_term(rec, mod, t, values, env)
+            _SW[0] = None
     rec.bound.update({"annotation_depth": 3 if cfg["tier"] == "thorough" else 2, "values": len(values)})
     return rec.result()
 
@@ -454,6 +494,14 @@ def replay(case, cfg):
     mod = make_module()
     g = mod.__dict__
     env = {"N1": g["N1"], "N2": g["N2"], "E": g["E"]}
+    sw = case.get("other_switches")
+    if sw:
+        with other_switches(sw["TRACE_LOGGING"], sw["CODEGEN_DEBUG"]):
+            _SW[0] = sw
+            try:
+                return replay({k: v for k, v in case.items() if k != "other_switches"}, cfg)
+            finally:
+                _SW[0] = None
     if case.get("switch_history") is not None:
         exec(compile(SWSRC, "<c13:SW>", "exec", dont_inherit=True), mod.__dict__)
         _replay_switch(rec, mod, g, case)
